@@ -10,6 +10,7 @@
 // Every history is replayed on fresh real objects and judged against the model; the search extends explored histories by one op, so every
 // prefix of a history has been judged as a history of its own.
 #include "hist/hist.h"
+#include "probe.h"
 #include <tbox/base/cabinet.hpp>
 #include <tbox/base/object_pool.hpp>
 #include <tbox/util/fd.h>
@@ -21,6 +22,7 @@
 #include <memory>
 #include <fcntl.h>
 #include <sys/syscall.h>
+#include <cerrno>
 
 struct Op { int k, a, b; };
 
@@ -40,11 +42,16 @@ enum { CH_SYS = 0, CH_FUNC = 1 };           // how a close request arrived: the 
 struct CloseCall { int chan; int fd; };
 static std::vector<CloseCall> g_close_calls;   // close requests during the current op, in order
 static bool g_fd_op = false; static int g_real_fd = -1;
+// Failing collaborator (lanes "...:fail"): every ::close issued by an Fd operation is recorded, carried out where it is real, and then
+// answered with -1 and errno EINTR / EIO in turn - which is how Linux reports a close that has nevertheless released the descriptor.
+static bool g_close_fails = false; static long g_close_fail_n = 0;
 extern "C" int close(int fd) {
   if (g_fd_op) {
     g_close_calls.push_back(CloseCall{CH_SYS, fd});
-    if (fd >= 0 && fd == g_real_fd) { g_real_fd = -1; return (int)syscall(SYS_close, fd); }
-    return 0; }
+    int r = 0;
+    if (fd >= 0 && fd == g_real_fd) { g_real_fd = -1; r = (int)syscall(SYS_close, fd); }
+    if (g_close_fails) { errno = (g_close_fail_n++ % 2) ? EIO : EINTR; return -1; }
+    return r; }
   if (fd >= 1000) return 0;
   return (int)syscall(SYS_close, fd);
 }
@@ -60,8 +67,19 @@ enum { LIVE = 0, FREED = 1, CLEARED = 2 };
 // one entry per token EVER issued; never erased. obj == nullptr while LIVE: the entry holds no object yet (alloc() / update(t, nullptr)).
 // clr: a clear() ran after it was freed
 struct H { Token tok; int st; Obj *obj; bool clr; };
-struct Cfg { size_t reserve_n; bool wrap; bool basic; };   // reserve(n) before the first op; wrap: the id counter starts two below its maximum;
+struct Cfg { size_t reserve_n; bool wrap; bool basic; bool spare_in_key; };   // reserve(n) before the first op; wrap: the id counter starts two below its maximum;
                                                             // basic: no entries without object in the alphabet (smaller space, searched deeper)
+
+// Private members of the cabinet feed the state key only (plus the preset of the wrap lane); they are reached through probes so that the
+// harness still builds - with a key made from the public API and the last ops - when a refactoring renames them (engine/probe.h).
+VF_PROBE(last_id_) VF_PROBE(first_free_) VF_PROBE(count_) VF_PROBE(cells_)
+template <class C> static auto cells_key(C &c, std::string &s, int) -> decltype((void)c.cells_.begin()->id, (void)c.cells_.begin()->next_free, true) {
+  char b[48]; for (auto &cell : c.cells_) { if (cell.id) snprintf(b, sizeof b, "%zu ", (size_t)cell.id); else snprintf(b, sizeof b, "f%zd ", (ssize_t)cell.next_free); s += b; } return true; }
+template <class C> static bool cells_key(C &, std::string &s, long) { vf_note_missing("cells_/Cell::id/Cell::next_free"); s += "? "; return false; }
+template <class C> static auto spare_cells(C &c, int) -> decltype((size_t)(c.cells_.capacity() - c.cells_.size())) { return c.cells_.capacity() - c.cells_.size(); }
+template <class C> static size_t spare_cells(C &, long) { vf_note_missing("cells_.capacity()"); return 0; }
+template <class C, class V> static auto preset_last_id(C &c, V v, int) -> decltype((void)(c.last_id_ = v), true) { c.last_id_ = v; return true; }
+template <class C, class V> static bool preset_last_id(C &, V, long) { return false; }
 
 // Token value semantics (the token is used as std::set / std::map / unordered_map key in-tree): decided on the (id, pos) pairs,
 // never by the token's own operator==. `t` is compared with every token in `all` (itself included) and with the null token.
@@ -93,7 +111,7 @@ static bool token_algebra(const Token &t, const std::vector<H> &all, std::string
 
 static std::string run(const std::vector<Op> &h, std::string &viol, const Cfg &cfg) {
   Cabinet<Obj> c;
-  if (cfg.wrap) c.last_id_ = std::numeric_limits<tbox::cabinet::Id>::max() - 2;   // ids issued: max-1, max, then the counter wraps
+  if (cfg.wrap) preset_last_id(c, std::numeric_limits<tbox::cabinet::Id>::max() - 2, 0);   // ids issued: max-1, max, then the counter wraps (main_ has made sure the field exists)
   if (cfg.reserve_n) c.reserve(cfg.reserve_n);
   std::deque<Obj> arena; std::set<const Obj *> known; std::vector<H> hs; int serial = 0;
   // The pairwise / container clauses of the oracle and the outcome counters are evaluated after the LAST op of the history only: the
@@ -108,7 +126,9 @@ static std::string run(const std::vector<Op> &h, std::string &viol, const Cfg &c
     return std::string("cabinet-") + what + (x.st == CLEARED ? "-after-clear" : x.clr ? "-after-free-and-later-clear" : slot_reused(x) ? "-after-slot-reuse" : "-after-free") +
            " handle#" + std::to_string(i) + " token(id=" + std::to_string(x.tok.id()) + ",pos=" + std::to_string(x.tok.pos()) + ")"; };
   auto tk = [&](size_t i) { return " handle#" + std::to_string(i) + " token(id=" + std::to_string(hs[i].tok.id()) + ",pos=" + std::to_string(hs[i].tok.pos()) + ")"; };
-  auto check = [&]() {
+  // the lookup clauses: at(t) / operator[] for every token ever issued, size(), empty(), the null token. Also evaluated IN FLIGHT, inside a
+  // foreach callback right after it freed an entry (in-tree callbacks free the entry and delete the object on the spot)
+  auto check_lookups = [&]() {
     size_t live = 0; for (auto &x : hs) if (x.st == LIVE) live++;
     for (size_t i = 0; i < hs.size(); i++) {               // at(t) for every token ever issued
       H &x = hs[i]; Obj *p = c.at(x.tok); g_lookups++;
@@ -120,11 +140,15 @@ static std::string run(const std::vector<Op> &h, std::string &viol, const Cfg &c
       } else if (p != nullptr) { viol = stale(i, "stale-token-resolves"); return; }
       if (c[x.tok] != p) { viol = "cabinet-operator-index-differs-from-at" + tk(i); return; }
     }
-    for (size_t i = 0; i < hs.size(); i++) for (size_t j = i + 1; j < hs.size(); j++)      // decided on the (id, pos) pairs
-      if (hs[i].st == LIVE && hs[j].st == LIVE && hs[i].tok.id() == hs[j].tok.id() && hs[i].tok.pos() == hs[j].tok.pos()) { viol = "cabinet-duplicate-live-token" + tk(i) + tk(j); return; }
     if (c.size() != live) { viol = "cabinet-size-mismatch size()=" + std::to_string(c.size()) + " live=" + std::to_string(live); return; }
     if (c.empty() != (live == 0)) { viol = "cabinet-empty-mismatch"; return; }
     if (c.at(Token()) != nullptr) { viol = "cabinet-null-token-resolves"; return; }
+  };
+  auto check = [&]() {
+    check_lookups(); if (!viol.empty()) return;
+    size_t live = 0; for (auto &x : hs) if (x.st == LIVE) live++;
+    for (size_t i = 0; i < hs.size(); i++) for (size_t j = i + 1; j < hs.size(); j++)      // decided on the (id, pos) pairs
+      if (hs[i].st == LIVE && hs[j].st == LIVE && hs[i].tok.id() == hs[j].tok.id() && hs[i].tok.pos() == hs[j].tok.pos()) { viol = "cabinet-duplicate-live-token" + tk(i) + tk(j); return; }
     // the live tokens as keys of ordered / hashed containers (how in-tree holders keep them): none may collapse, stale ones are not found
     std::set<Token> os; std::unordered_set<Token> us;
     for (auto &x : hs) if (x.st == LIVE) { os.insert(x.tok); us.insert(x.tok); }
@@ -170,6 +194,9 @@ static std::string run(const std::vector<Op> &h, std::string &viol, const Cfg &c
         std::set<int> visited; std::set<int> live_at_start; int nvis = 0, prev = -1; size_t null_visits = 0;
         for (size_t i = 0; i < hs.size(); i++) if (hs[i].st == LIVE) live_at_start.insert((int)i);
         std::set<int> guessed;
+        auto free_in_flight = [&](int i, const char *ctx) {
+          do_free((size_t)i, ctx); if (!viol.empty()) return;
+          check_lookups(); if (!viol.empty()) viol += " (inside foreach, right after the callback freed handle#" + std::to_string(i) + ")"; };
         c.foreach([&](Obj *p) {
           if (!viol.empty()) return;
           int me = -1;
@@ -185,13 +212,13 @@ static std::string run(const std::vector<Op> &h, std::string &viol, const Cfg &c
           }
           int idx = nvis++;
           if (me >= 0) switch (o.k) {
-            case FE_ALL: do_free(me, "foreach-remove"); break;
-            case FE_EVEN: if (idx % 2 == 0) do_free(me, "foreach-remove"); break;
-            case FE_ODD: if (idx % 2 == 1) do_free(me, "foreach-remove"); break;
+            case FE_ALL: free_in_flight(me, "foreach-remove"); break;
+            case FE_EVEN: if (idx % 2 == 0) free_in_flight(me, "foreach-remove"); break;
+            case FE_ODD: if (idx % 2 == 1) free_in_flight(me, "foreach-remove"); break;
             case FE_NEXT: { int nx = -1;   // the live entry that would be visited next (smallest pos above mine)
               for (size_t i = 0; i < hs.size(); i++) if (hs[i].st == LIVE && hs[i].tok.pos() > hs[me].tok.pos() && (nx < 0 || hs[i].tok.pos() < hs[nx].tok.pos())) nx = (int)i;
-              if (nx >= 0) do_free(nx, "foreach-remove-other"); } break;
-            case FE_PREV: if (prev >= 0 && hs[prev].st == LIVE) do_free(prev, "foreach-remove-other"); break;
+              if (nx >= 0) free_in_flight(nx, "foreach-remove-other"); } break;
+            case FE_PREV: if (prev >= 0 && hs[prev].st == LIVE) free_in_flight(prev, "foreach-remove-other"); break;
             default: break;
           }
           prev = me; });
@@ -214,14 +241,17 @@ static std::string run(const std::vector<Op> &h, std::string &viol, const Cfg &c
   // canonical state: complete implementation state + every token held by the harness with its model status
   // (E = live without an object: no control flow of the present code reads obj_ptr, but the oracle's expectations differ)
   std::string s; char b[96];
-  snprintf(b, sizeof b, "L%zu F%zd N%zu [", c.last_id_, (ssize_t)c.first_free_, c.count_); s += b;
-  for (auto &cell : c.cells_) { if (cell.id) snprintf(b, sizeof b, "%zu ", cell.id); else snprintf(b, sizeof b, "f%zd ", (ssize_t)cell.next_free); s += b; }
+  snprintf(b, sizeof b, "L%zu F%zd N%zu [", VF_GET(last_id_, c, (size_t)0), (ssize_t)VF_GET(first_free_, c, (size_t)0), VF_GET(count_, c, c.size())); s += b;
+  cells_key(c, s, 0);
+  if (cfg.spare_in_key) { size_t sp = spare_cells(c, 0); snprintf(b, sizeof b, "+%zu", sp > 3 ? (size_t)3 : sp); s += b; }   // room left before the cell vector reallocates (capped)
   s += "] T{";
   std::vector<std::string> ts;
   for (auto &x : hs) { snprintf(b, sizeof b, "%zu@%zu%c", x.tok.id(), x.tok.pos(), x.st == LIVE && !x.obj ? 'E' : "LFC"[x.st]); ts.push_back(b); }
   std::sort(ts.begin(), ts.end());
   for (auto &t : ts) { s += t; s += ' '; }
   s += "}";
+  // a private field is gone: states the key can no longer tell apart must not be merged, so the last ops of the history are appended
+  if (vf_any_missing()) for (size_t i = h.size() >= 4 ? h.size() - 4 : 0; i < h.size(); i++) { snprintf(b, sizeof b, "/%d:%d", h[i].k, h[i].a); s += b; }
   return s;
 }
 
@@ -231,10 +261,12 @@ static std::string run(const std::vector<Op> &h, std::string &viol, const Cfg &c
 // once per partition that reaches them.
 static const size_t PART_DEPTH = 6;
 static void main_(size_t depth, const char *part_s, const char *cfg_s) {
-  Cfg cfg{0, false, false}; unsigned part = 0, nparts = 1; sscanf(part_s, "%u/%u", &part, &nparts); if (nparts < 1) nparts = 1;
-  if (!strcmp(cfg_s, "wrap")) cfg.wrap = true; else if (!strcmp(cfg_s, "basic")) cfg.basic = true; else if (!strncmp(cfg_s, "reserve", 7)) cfg.reserve_n = (size_t)atol(cfg_s + 7);
+  Cfg cfg{0, false, false, false}; unsigned part = 0, nparts = 1; sscanf(part_s, "%u/%u", &part, &nparts); if (nparts < 1) nparts = 1;
+  if (!strcmp(cfg_s, "wrap")) cfg.wrap = true; else if (!strcmp(cfg_s, "basic")) cfg.basic = true; else if (!strcmp(cfg_s, "reserve-mid")) cfg.spare_in_key = true; else if (!strncmp(cfg_s, "reserve", 7)) cfg.reserve_n = (size_t)atol(cfg_s + 7);
   hx::Explorer<Op> ex; ex.name = std::string("cabinet") + (*cfg_s && strcmp(cfg_s, "plain") ? std::string("-") + cfg_s : "") + "/part" + std::to_string(part) + "of" + std::to_string(nparts);
   ex.deadline_s = hx::deadline_from_env(600);
+  { Cabinet<Obj> probe_c;    // the wrap lane needs to preset the private id counter; without that field the lane cannot be set up
+    if (cfg.wrap && !preset_last_id(probe_c, (tbox::cabinet::Id)1, 0)) { printf("@INFO %s: SKIPPED - the id counter (last_id_) cannot be preset, field not found\n@CAP %s: lane skipped, last_id_ not found\n", ex.name.c_str(), ex.name.c_str()); return; } }
   ex.show = [](const Op &o) { char b[40]; if (o.k == FREE || o.k == UPDATE || o.k == UPDATE_EMPTY) snprintf(b, 40, "%s(#%d)", kN[o.k], o.a); else if (o.k == RESERVE) snprintf(b, 40, o.a ? "reserve(1)" : "reserve(cells+2)"); else snprintf(b, 40, "%s", kN[o.k]); return std::string(b); };
   ex.menu = [&](const std::vector<Op> &h) {
     int n = 0; for (auto &o : h) if (o.k == ALLOC || o.k == ALLOC_EMPTY) n++;
@@ -266,14 +298,22 @@ static void flag(const char *s) { if (g_viol && g_viol->empty()) *g_viol = s; }
 //   constructor hook: the object allocates a child from the same pool (a node that builds its child). While the outer constructor
 //                     runs its storage is in use, so the nested alloc() must not hand it out again.
 //   destructor hook:  the object frees another object of the same pool (a node that destroys its child).
+// All four combinations occur (constructor allocates / frees, destructor frees / allocates), some two levels deep: a hook may arm the
+// next hook before it re-enters the pool. The constructor hook may also throw.
 static std::function<void()> g_in_ctor, g_in_dtor;
 static int g_arg0 = 0;                      // what the zero-argument constructor stamps (alloc() without arguments)
+// Storage is in use from the moment its constructor starts until its destructor has finished (or its constructor has thrown).
+struct CtorFailure {};                      // what a failing element constructor throws (ALLOC_THROW)
+static long g_ctor_failed = 0;
 static void on_ctor(const void *self) { g_ctor++;
   if (g_inuse.count(self)) flag("pool-constructs-in-storage-still-in-use");
-  if (g_in_ctor) { std::function<void()> f; f.swap(g_in_ctor); g_inuse.insert(self); f(); } }
-static void on_dtor(const void *self, bool alive) { g_dtor++; (void)self;
+  g_inuse.insert(self);
+  if (g_in_ctor) { std::function<void()> f; f.swap(g_in_ctor);
+    try { f(); } catch (...) { g_inuse.erase(self); g_ctor_failed++; throw; } } }
+static void on_dtor(const void *self, bool alive) { g_dtor++;
   if (!alive) flag("pool-destructs-object-that-is-not-alive");
-  if (g_in_dtor) { std::function<void()> f; f.swap(g_in_dtor); f(); } }
+  if (g_in_dtor) { std::function<void()> f; f.swap(g_in_dtor); f(); }
+  g_inuse.erase(self); }
 // every probe: one-argument and zero-argument constructors; stamps every byte it owns
 #define PROBE_LIFECYCLE(P) \
   explicit P(int s) { on_ctor(this); stamp(s); } \
@@ -312,88 +352,98 @@ struct Wide40 {                             // several links wide, 8-aligned
   void wipe() { for (int i = 0; i < 5; i++) w[i] = 0; }
   PROBE_LIFECYCLE(Wide40)
 };
-enum { ALLOC, FREE, ALLOC_NEST, ALLOC0, FREE_NEST };
+enum { ALLOC, FREE, ALLOC_NEST, ALLOC0, FREE_NEST, ALLOC_THROW, ALLOC_NEST2, ALLOC_CTOR_FREES, FREE_NEST2, FREE_DTOR_ALLOCS, FREE_DTOR_ALLOC_CTOR_FREES };
+
+// The chain of parked blocks hangs off a private field. It feeds ADDITIONAL clauses (a live or unknown or repeated block on the chain, its
+// length against free_number_ / keep_number_) and labels; the clauses of the statement itself - storage in use is never handed out,
+// one constructor and one destructor per pair, every byte stamp intact - do not need it. If the names go, the walk is switched off.
+VF_PROBE(free_header_) VF_PROBE(free_number_) VF_PROBE(keep_number_)
+template <class Pool> static auto walk_chain(Pool &pool, std::vector<const void *> &out, const std::function<bool(const void *)> &follow, int)
+    -> decltype((void)pool.free_header_->next, true) {
+  for (auto *b = pool.free_header_; b != nullptr && out.size() < 64; b = b->next) { out.push_back(b); if (!follow(b)) break; }
+  return true; }
+template <class Pool> static bool walk_chain(Pool &, std::vector<const void *> &, const std::function<bool(const void *)> &, long) { vf_note_missing("free_header_/Block::next"); return false; }
 
 template <class P>
 static std::string run(const std::vector<Op> &h, std::string &viol, size_t keep, bool dflt) {
   typedef tbox::ObjectPool<P> Pool;
-  g_ctor = g_dtor = 0; g_inuse.clear(); g_viol = &viol; g_in_ctor = nullptr; g_in_dtor = nullptr;
+  g_ctor = g_dtor = g_ctor_failed = 0; g_inuse.clear(); g_viol = &viol; g_in_ctor = nullptr; g_in_dtor = nullptr;
   struct L { P *p; int serial; };
   std::vector<L> live; std::set<const void *> blk; int serial = 0; long allocs = 0, frees = 0;
   std::string canon;
   {
     Pool *pp = dflt ? new Pool() : new Pool(keep); Pool &pool = *pp;
+    bool can_walk = true;
     auto is_live = [&](const void *q) { for (auto &l : live) if (l.p == q) return true; return false; };
     auto walk = [&](std::vector<const void *> &out) {        // the parked list; bounded (cycle guard); a link is only followed
       out.clear();                                           // out of a block this harness has seen and that is not in use
-      for (auto *b = pool.free_header_; b != nullptr && out.size() < 64; b = b->next) {
-        out.push_back(b);
-        if (is_live(b)) { if (viol.empty()) viol = "pool-live-object-is-on-free-list"; return; }
-        if (!blk.count(b)) { if (viol.empty()) viol = "pool-free-list-has-unknown-block"; return; } } };
+      can_walk = walk_chain(pool, out, [&](const void *b) {
+        if (is_live(b)) { if (viol.empty()) viol = "pool-live-object-is-on-free-list"; return false; }
+        if (!blk.count(b)) { if (viol.empty()) viol = "pool-free-list-has-unknown-block"; return false; }
+        return true; }, 0); };
     auto check = [&]() {
       for (auto &l : live) if (!l.p->ok(l.serial)) { viol = "pool-live-object-corrupted serial=" + std::to_string(l.serial); return; }
-      std::vector<const void *> fl; walk(fl); if (!viol.empty()) return;
-      if (fl.size() != pool.free_number_) { viol = "pool-free-list-length-differs-from-free-number"; return; }
+      for (size_t i = 0; i < live.size(); i++) for (size_t j = i + 1; j < live.size(); j++) if (live[i].p == live[j].p) { viol = "pool-hands-out-storage-still-in-use"; return; }
+      if (g_ctor - g_ctor_failed != allocs || g_dtor != frees) { viol = "pool-ctor-dtor-count ctor=" + std::to_string(g_ctor) + " (failed " + std::to_string(g_ctor_failed) + ") dtor=" + std::to_string(g_dtor) + " allocs=" + std::to_string(allocs) + " frees=" + std::to_string(frees); return; }
+      std::vector<const void *> fl; walk(fl); if (!viol.empty() || !can_walk) return;
+      if (VF_HAS(free_number_, pool) && fl.size() != VF_GET(free_number_, pool, (size_t)0)) { viol = "pool-free-list-length-differs-from-free-number"; return; }
       if (fl.size() > keep) { viol = "pool-parks-more-than-keep-number"; return; }
       std::set<const void *> u(fl.begin(), fl.end());
       if (u.size() != fl.size()) { viol = "pool-free-list-has-duplicate-block"; return; }
       for (auto &l : live) if (u.count(l.p)) { viol = "pool-live-object-is-on-free-list"; return; }
-      for (size_t i = 0; i < live.size(); i++) for (size_t j = i + 1; j < live.size(); j++) if (live[i].p == live[j].p) { viol = "pool-hands-out-storage-still-in-use"; return; }
-      if (g_ctor != allocs || g_dtor != frees) { viol = "pool-ctor-dtor-count ctor=" + std::to_string(g_ctor) + " dtor=" + std::to_string(g_dtor) + " allocs=" + std::to_string(allocs) + " frees=" + std::to_string(frees); return; }
     };
-    // free live[i]; with j >= 0 the destructor of live[i] frees live[j] from the same pool before it returns
-    auto do_free = [&](size_t i, int j, const char *ctx) {
-      L l = live[i], l2 = j >= 0 ? live[(size_t)j] : L{nullptr, 0};
-      if (j >= 0 && (size_t)j > i) live.erase(live.begin() + j);
-      live.erase(live.begin() + i);
-      if (j >= 0 && (size_t)j < i) live.erase(live.begin() + j);
-      long c0 = g_ctor, d0 = g_dtor, want = j >= 0 ? 2 : 1;
-      if (j >= 0) g_in_dtor = [&]() { g_inuse.erase(l2.p); pool.free(l2.p); };
-      g_inuse.erase(l.p);                   // from here on the storage may be handed out again
-      pool.free(l.p); frees += want; g_in_dtor = nullptr;
-      if (g_dtor != d0 + want) { if (viol.empty()) viol = std::string("pool-free-runs-") + (g_dtor == d0 ? "no" : g_dtor < d0 + want ? "too-few" : "several") + "-destructors" + ctx; return; }
-      if (g_ctor != c0) { if (viol.empty()) viol = std::string("pool-free-runs-constructor") + ctx; return; }
+    // One op = one outermost call into the pool; everything else happens re-entrantly from the constructor / destructor hooks.
+    // born: objects whose alloc() returned (innermost first). died: live objects handed to free(). The verdict on the op is the same for all.
+    struct Born { P *p; int serial; };
+    auto exec = [&](const Op &o, const char *ctx) {
+      std::vector<Born> born; std::vector<L> died; std::vector<size_t> died_idx; bool threw = false, want_throw = false;
+      long c0 = g_ctor, d0 = g_dtor; size_t n = live.size();
+      std::vector<const void *> fl0; walk(fl0); if (!viol.empty()) return;
+      const char *src = !can_walk ? "" : fl0.empty() ? "<-malloc" : "<-parked-block";
+      auto A = [&](int s) { P *x = pool.alloc(s); born.push_back(Born{x, s}); };
+      auto die = [&](size_t i) { died.push_back(live[i]); died_idx.push_back(i); return live[i].p; };
+      std::string label;
+      switch (o.k) {
+        case ALLOC: { int s = ++serial; A(s); label = std::string("pool:alloc") + src; } break;
+        case ALLOC0: { int s = ++serial; g_arg0 = s; P *x = pool.alloc(); g_arg0 = -1; born.push_back(Born{x, s}); label = std::string("pool:alloc()") + src; } break;
+        case ALLOC_THROW: { int s = ++serial; want_throw = true; g_in_ctor = []() { throw CtorFailure(); };
+          try { P *x = pool.alloc(s); if (x) born.push_back(Born{x, s}); } catch (CtorFailure &) { threw = true; }
+          label = std::string("pool:alloc(ctor-throws)") + src; } break;
+        case ALLOC_NEST: { int outer = ++serial, inner = ++serial; g_in_ctor = [&, inner]() { A(inner); }; A(outer); label = "pool:alloc-nested"; } break;
+        case ALLOC_NEST2: { int s1 = ++serial, s2 = ++serial, s3 = ++serial;
+          g_in_ctor = [&, s2, s3]() { g_in_ctor = [&, s3]() { A(s3); }; A(s2); }; A(s1); label = "pool:alloc-nested-two-deep"; } break;
+        case ALLOC_CTOR_FREES: { int s = ++serial; P *victim = die((size_t)o.a); g_in_ctor = [&, victim]() { pool.free(victim); }; A(s); label = "pool:alloc(ctor-frees-another)"; } break;
+        case FREE: pool.free(die((size_t)o.a)); label = "pool:free"; break;
+        case FREE_NEST: { P *a = die((size_t)o.a), *b = die((size_t)o.b); g_in_dtor = [&, b]() { pool.free(b); }; pool.free(a); label = "pool:free-nested"; } break;
+        case FREE_NEST2: { P *a = die((size_t)o.a), *b = die(((size_t)o.a + 1) % n), *c = die(((size_t)o.a + 2) % n);
+          g_in_dtor = [&, b, c]() { g_in_dtor = [&, c]() { pool.free(c); }; pool.free(b); }; pool.free(a); label = "pool:free-nested-two-deep"; } break;
+        case FREE_DTOR_ALLOCS: { int s = ++serial; P *a = die((size_t)o.a); g_in_dtor = [&, s]() { A(s); }; pool.free(a); label = "pool:free(dtor-allocs)"; } break;
+        case FREE_DTOR_ALLOC_CTOR_FREES: { int s = ++serial; P *a = die((size_t)o.a), *b = die(((size_t)o.a + 1) % n);
+          g_in_dtor = [&, s, b]() { g_in_ctor = [&, b]() { pool.free(b); }; A(s); }; pool.free(a); label = "pool:free(dtor-allocs,ctor-of-that-frees-another)"; } break;
+      }
+      bool hooks_left = (bool)g_in_ctor || (bool)g_in_dtor; g_in_ctor = nullptr; g_in_dtor = nullptr;
+      if (!viol.empty()) return;
+      long want_c = (long)born.size() + (threw ? 1 : 0);
+      if (want_throw && !threw && !born.empty()) { viol = std::string("pool-alloc-hands-out-an-object-whose-constructor-threw") + ctx; return; }
+      if (want_throw && g_dtor != d0) { viol = std::string("pool-runs-destructor-for-an-object-whose-constructor-threw") + ctx; return; }
+      for (auto &b : born) if (b.p == nullptr) { viol = std::string("pool-alloc-returns-null") + ctx; return; }
+      for (size_t i = 0; i < born.size(); i++) for (size_t j = i + 1; j < born.size(); j++) if (born[i].p == born[j].p) { viol = std::string("pool-nested-alloc-hands-out-the-storage-under-construction") + ctx; return; }
+      for (auto &b : born) for (auto &l : live) if (l.p == b.p) { viol = std::string("pool-hands-out-storage-still-in-use") + ctx; return; }   // live still holds the objects that died in this op:
+      if (hooks_left) { viol = std::string(born.empty() && !want_throw ? "pool-free-runs-no-destructors" : "pool-alloc-runs-no-constructors") + ctx; return; }   // none of them was finished when a nested alloc ran
+      if (g_ctor != c0 + want_c) { viol = std::string(born.size() > 1 ? "pool-nested-alloc-constructor-count" : g_ctor < c0 + want_c ? "pool-alloc-runs-no-constructors" : died.empty() ? "pool-alloc-runs-several-constructors" : "pool-free-runs-constructor") + ctx; return; }
+      if (g_dtor != d0 + (long)died.size()) { viol = std::string(died.empty() ? "pool-alloc-runs-destructor" : g_dtor == d0 ? "pool-free-runs-no-destructors" : g_dtor < d0 + (long)died.size() ? "pool-free-runs-too-few-destructors" : "pool-free-runs-several-destructors") + ctx; return; }
+      for (auto &b : born) if (!b.p->ok(b.serial)) { viol = std::string(born.size() > 1 ? "pool-nested-alloc-object-not-constructed-with-arguments" : "pool-alloc-object-not-constructed-with-arguments") + ctx; return; }
+      std::sort(died_idx.begin(), died_idx.end()); for (size_t k = died_idx.size(); k-- > 0;) live.erase(live.begin() + died_idx[k]);
+      for (auto &b : born) { blk.insert(b.p); live.push_back(L{b.p, b.serial}); g_inuse.insert(b.p); }
+      allocs += (long)born.size(); frees += (long)died.size();
       std::vector<const void *> fl; walk(fl); if (!viol.empty()) return;
-      for (const L *x : {&l, &l2}) if (x->p) {
-        bool parked = std::find(fl.begin(), fl.end(), (const void *)x->p) != fl.end();
-        g_out[std::string(j >= 0 ? "pool:free-nested" : "pool:free") + (parked ? "->parked" : "->released")]++;
-        if (!parked) blk.erase(x->p); }      // really given back to malloc; the address may come back as a new block
+      for (auto &x : died) {
+        bool parked = std::find(fl.begin(), fl.end(), (const void *)x.p) != fl.end();
+        if (can_walk) { g_out[label + (parked ? "->parked" : "->released")]++; if (!parked && !is_live(x.p)) blk.erase(x.p); } }   // really given back to malloc; the address may come back as a new block
+      if (died.empty() || !can_walk) g_out[label]++;
     };
     for (auto &o : h) {
-      if (o.k == ALLOC_NEST) {
-        long c0 = g_ctor, d0 = g_dtor;
-        int outer = ++serial, inner = ++serial; P *q = nullptr;
-        g_in_ctor = [&]() { q = pool.alloc(inner); };
-        P *p = pool.alloc(outer); allocs += 2; g_in_ctor = nullptr;
-        if (!viol.empty()) break;
-        if (p == nullptr || q == nullptr) { viol = "pool-alloc-returns-null"; break; }
-        if (p == q) { viol = "pool-nested-alloc-hands-out-the-storage-under-construction"; break; }
-        for (auto &l : live) if (l.p == p || l.p == q) { viol = "pool-hands-out-storage-still-in-use"; break; }
-        if (!viol.empty()) break;
-        if (g_ctor != c0 + 2) { viol = "pool-nested-alloc-constructor-count"; break; }
-        if (g_dtor != d0) { viol = "pool-alloc-runs-destructor"; break; }
-        if (!p->ok(outer) || !q->ok(inner)) { viol = "pool-nested-alloc-object-not-constructed-with-arguments"; break; }
-        g_out["pool:alloc-nested"]++;
-        blk.insert(q); blk.insert(p);
-        live.push_back(L{q, inner}); g_inuse.insert(q); live.push_back(L{p, outer}); g_inuse.insert(p);   // the inner object is complete first
-      } else if (o.k == ALLOC || o.k == ALLOC0) {
-        long c0 = g_ctor, d0 = g_dtor; bool had_parked = pool.free_header_ != nullptr;
-        int s = ++serial; P *p = nullptr;
-        if (o.k == ALLOC) p = pool.alloc(s);
-        else { g_arg0 = s; p = pool.alloc(); g_arg0 = -1; }
-        allocs++;
-        if (!viol.empty()) break;
-        if (p == nullptr) { viol = "pool-alloc-returns-null"; break; }
-        for (auto &l : live) if (l.p == p) { viol = "pool-hands-out-storage-still-in-use"; break; }
-        if (!viol.empty()) break;
-        if (g_ctor != c0 + 1) { viol = std::string("pool-alloc-runs-") + (g_ctor == c0 ? "no" : "several") + "-constructors"; break; }
-        if (g_dtor != d0) { viol = "pool-alloc-runs-destructor"; break; }
-        if (!p->ok(s)) { viol = "pool-alloc-object-not-constructed-with-arguments"; break; }
-        blk.insert(p);
-        g_out[std::string(o.k == ALLOC ? "pool:alloc" : "pool:alloc()") + (had_parked ? "<-parked-block" : "<-malloc")]++;
-        live.push_back(L{p, s}); g_inuse.insert(p);
-      } else if (o.k == FREE_NEST) do_free((size_t)o.a, o.b, " (the destructor frees another object of the pool)");
-      else do_free((size_t)o.a, -1, "");
+      exec(o, o.k == FREE_NEST ? " (the destructor frees another object of the pool)" : "");
       if (!viol.empty()) break;
       check(); if (!viol.empty()) break;
     }
@@ -401,11 +451,12 @@ static std::string run(const std::vector<Op> &h, std::string &viol, size_t keep,
     // live objects. The pool never looks at a block's address or history, and every oracle clause about the chain (length, duplicates,
     // live or unknown blocks on it) has just been evaluated, so states are identified up to renaming of blocks: chain length + number
     // of live objects. (Every live object is offered to free() in every state, whichever history represents it.)
-    { std::vector<const void *> fl; walk(fl); char b[96]; snprintf(b, sizeof b, "K%zd n%zu parked%zu live%zu", (ssize_t)pool.keep_number_, pool.free_number_, fl.size(), live.size()); canon = b; }
+    { std::vector<const void *> fl; walk(fl); char b[96]; snprintf(b, sizeof b, "K%zd n%zu parked%zu live%zu", (ssize_t)VF_GET(keep_number_, pool, keep), VF_GET(free_number_, pool, (size_t)0), fl.size(), live.size()); canon = b;
+      if (vf_any_missing()) for (size_t i = h.size() >= 4 ? h.size() - 4 : 0; i < h.size(); i++) { snprintf(b, sizeof b, "/%d:%d", h[i].k, h[i].a); canon += b; } }
     // teardown: give everything back, destroy the pool (ASan sees double free / use after free); pairs must balance
     if (viol.empty()) {
-      while (!live.empty() && viol.empty()) do_free(live.size() - 1, -1, " (end-of-history teardown: free of a remaining live object)");
-      if (viol.empty() && (g_ctor != allocs || g_dtor != allocs)) viol = "pool-ctor-dtor-unbalanced-at-end ctor=" + std::to_string(g_ctor) + " dtor=" + std::to_string(g_dtor) + " allocs=" + std::to_string(allocs);
+      while (!live.empty() && viol.empty()) exec(Op{FREE, (int)live.size() - 1, 0}, " (end-of-history teardown: free of a remaining live object)");
+      if (viol.empty() && (g_ctor - g_ctor_failed != allocs || g_dtor != allocs)) viol = "pool-ctor-dtor-unbalanced-at-end ctor=" + std::to_string(g_ctor) + " dtor=" + std::to_string(g_dtor) + " allocs=" + std::to_string(allocs);
     }
     if (viol.empty()) {                     // after a violation the pool is leaked on purpose: its list is suspect
       long d0 = g_dtor;
@@ -421,19 +472,33 @@ static void main_(size_t depth, const char *keep_s, const char *probe) {
   bool dflt = !strcmp(keep_s, "max"); size_t keep = dflt ? std::numeric_limits<size_t>::max() : (size_t)atol(keep_s);
   hx::Explorer<Op> ex; ex.name = std::string("pool-") + probe + "/keep" + keep_s;
   ex.deadline_s = hx::deadline_from_env(600);
-  ex.show = [](const Op &o) { char b[64];
+  ex.show = [](const Op &o) { char b[96];
     switch (o.k) {
-      case ALLOC: snprintf(b, 64, "alloc"); break;
-      case ALLOC0: snprintf(b, 64, "alloc(no-arguments)"); break;
-      case ALLOC_NEST: snprintf(b, 64, "alloc(ctor-allocs-a-child)"); break;
-      case FREE_NEST: snprintf(b, 64, "free(live[%d],dtor-frees-live[%d])", o.a, o.b); break;
-      default: snprintf(b, 64, "free(live[%d])", o.a); break; }
+      case ALLOC: snprintf(b, 96, "alloc"); break;
+      case ALLOC0: snprintf(b, 96, "alloc(no-arguments)"); break;
+      case ALLOC_THROW: snprintf(b, 96, "alloc(ctor-throws)"); break;
+      case ALLOC_NEST: snprintf(b, 96, "alloc(ctor-allocs-a-child)"); break;
+      case ALLOC_NEST2: snprintf(b, 96, "alloc(ctor-allocs-a-child-whose-ctor-allocs-a-child)"); break;
+      case ALLOC_CTOR_FREES: snprintf(b, 96, "alloc(ctor-frees-live[%d])", o.a); break;
+      case FREE_NEST: snprintf(b, 96, "free(live[%d],dtor-frees-live[%d])", o.a, o.b); break;
+      case FREE_NEST2: snprintf(b, 96, "free(live[%d],dtor-frees-the-next-whose-dtor-frees-the-one-after)", o.a); break;
+      case FREE_DTOR_ALLOCS: snprintf(b, 96, "free(live[%d],dtor-allocs)", o.a); break;
+      case FREE_DTOR_ALLOC_CTOR_FREES: snprintf(b, 96, "free(live[%d],dtor-allocs-an-object-whose-ctor-frees-the-next)", o.a); break;
+      default: snprintf(b, 96, "free(live[%d])", o.a); break; }
     return std::string(b); };
   ex.menu = [&](const std::vector<Op> &h) {
-    int n = 0; for (auto &o : h) n += o.k == ALLOC_NEST ? 2 : o.k == FREE ? -1 : o.k == FREE_NEST ? -2 : 1;
-    std::vector<Op> m; for (int k : {ALLOC, ALLOC0, ALLOC_NEST}) m.push_back({k, 0, 0});
+    int n = 0;
+    for (auto &o : h) switch (o.k) {
+      case ALLOC: case ALLOC0: n += 1; break; case ALLOC_NEST: n += 2; break; case ALLOC_NEST2: n += 3; break; case ALLOC_THROW: case ALLOC_CTOR_FREES: case FREE_DTOR_ALLOCS: break;
+      case FREE: case FREE_DTOR_ALLOC_CTOR_FREES: n -= 1; break; case FREE_NEST: n -= 2; break; case FREE_NEST2: n -= 3; break; }
+    std::vector<Op> m; for (int k : {ALLOC, ALLOC0, ALLOC_NEST, ALLOC_THROW, ALLOC_NEST2}) m.push_back({k, 0, 0});
     for (int i = 0; i < n; i++) m.push_back({FREE, i, 0});          // each live object (index into the live list)
-    for (int i = 0; i < n; i++) for (int j = 0; j < n; j++) if (i != j) m.push_back({FREE_NEST, i, j});
+    for (int i = 0; i < n; i++) m.push_back({ALLOC_CTOR_FREES, i, 0});
+    for (int i = 0; i < n; i++) m.push_back({FREE_DTOR_ALLOCS, i, 0});
+    if (n >= 2) for (int i = 0; i < n; i++) m.push_back({FREE_DTOR_ALLOC_CTOR_FREES, i, 0});
+    if (n >= 3) for (int i = 0; i < n; i++) m.push_back({FREE_NEST2, i, 0});
+    // blocks are interchangeable for the pool, so the victim of the nested free is a neighbour in the live list (either side), not every other object
+    for (int i = 0; i < n; i++) { if (n >= 2) m.push_back({FREE_NEST, i, (i + 1) % n}); if (n >= 3) m.push_back({FREE_NEST, i, (i + n - 1) % n}); }
     return m; };
   std::string pr = probe;
   if (pr == "probe16") ex.run = [&](const std::vector<Op> &h, std::string &v) { return run<Probe16>(h, v, keep, dflt); };
@@ -457,6 +522,7 @@ static int NV = 3, ND = 2;   // handle variables / fake descriptors in use
 // The descriptor numbers handed to Fd(fd[, cf]). 0 is the smallest valid descriptor (the boundary of the `fd >= 0` guards); while
 // an Fd operation runs the ::close seam keeps every number of this table away from the kernel.
 static const int kDesc[MAXD] = {0, 1000, 1001};
+enum { K_SYS = 0, K_CF = 1, K_CFNULL = 2 };
 static const int REAL = MAXD;   // pseudo descriptor index of the record made by Fd::Open() on a real file (number chosen by the kernel)
 
 // Boring reference: variables point at shared records; a record's descriptor is closed by an explicit close()
@@ -464,9 +530,10 @@ static const int REAL = MAXD;   // pseudo descriptor index of the record made by
 struct Model {
   struct Rec { int desc; int refs; bool closed; int chan; int num; };
   std::vector<Rec> recs; bool exists[MAXV]; int rec[MAXV]; int open_rec[MAXD + 1];
+  int kind;    // lane: K_CF = Fd(fd, recorder), K_SYS = Fd(fd), K_CFNULL = Fd(fd, CloseFunc()) / Fd(fd, nullptr) - an empty close function means ::close
   bool use_cf;
   std::vector<CloseCall> expect;    // close calls the op just applied must produce, in order
-  explicit Model(bool cf) : use_cf(cf) { for (int i = 0; i < MAXV; i++) { exists[i] = false; rec[i] = -1; } for (int d = 0; d <= MAXD; d++) open_rec[d] = -1; }
+  explicit Model(int k) : kind(k), use_cf(k == K_CF) { for (int i = 0; i < MAXV; i++) { exists[i] = false; rec[i] = -1; } for (int d = 0; d <= MAXD; d++) open_rec[d] = -1; }
   void do_close(int r) { Rec &x = recs[r]; if (!x.closed) { x.closed = true; expect.push_back(CloseCall{x.chan, x.num}); open_rec[x.desc] = -1; } }
   void release(int r) { if (r < 0) return; if (--recs[r].refs == 0) do_close(r); }
   bool enabled(const Op &o) const {
@@ -503,6 +570,14 @@ struct Model {
   bool is_open(int num) const { for (auto &x : recs) if (!x.closed && x.num == num) return true; return false; }
 };
 
+// the private record of a handle, for the state key only
+template <class F> static auto fd_detail(const F &f, const void *&d, int) -> decltype((void)f.detail_, true) { d = f.detail_; return true; }
+template <class F> static bool fd_detail(const F &, const void *&, long) { vf_note_missing("Fd::detail_"); return false; }
+template <class F> static auto fd_record_key(const F &f, std::string &s, int) -> decltype((void)f.detail_->fd, (void)f.detail_->ref_count, (void)(bool)f.detail_->close_func) {
+  char b[64]; snprintf(b, sizeof b, " fd%d rc%d cf%d", (int)f.detail_->fd, (int)f.detail_->ref_count, f.detail_->close_func ? 1 : 0); s += b; }
+template <class F> static void fd_record_key(const F &f, std::string &s, long) {
+  vf_note_missing("Fd::Detail::fd/ref_count/close_func"); char b[64]; snprintf(b, sizeof b, " get%d null%d", f.get(), (int)f.isNull()); s += b; }
+
 static std::string show(const Op &o) {
   char b[48]; const char V[] = "ABCD";
   switch (o.k) {
@@ -516,11 +591,12 @@ static std::string show(const Op &o) {
 // the number the kernel will give to the next descriptor it opens (lowest unused); runs outside any Fd operation, so the seam forwards
 static int next_kernel_fd() { int n = dup(1); if (n >= 0) ::close(n); return n; }
 
-static std::string run(const std::vector<Op> &h, std::string &viol, bool use_cf) {
-  Model m(use_cf); Fd *var[MAXV] = {nullptr, nullptr, nullptr, nullptr};
+static std::string run(const std::vector<Op> &h, std::string &viol, int kind) {
+  const bool use_cf = kind == K_CF; g_close_fail_n = 0;
+  Model m(kind); Fd *var[MAXV] = {nullptr, nullptr, nullptr, nullptr};
   std::map<int, int> issued, closed_n;          // harness-side truth per descriptor number: times handed to an Fd / close calls seen
   Fd::CloseFunc cf = [](int fd) { g_close_calls.push_back(CloseCall{CH_FUNC, fd}); };
-  auto mkfd = [&](int num) { return use_cf ? Fd(num, cf) : Fd(num); };
+  auto mkfd = [&](int num) { return use_cf ? Fd(num, cf) : kind == K_SYS ? Fd(num) : (num & 1) ? Fd(num, nullptr) : Fd(num, Fd::CloseFunc()); };
   auto judge = [&](const Op &o) {                       // recorded close calls of this op against the model
     // classify the first unexpected / missing call with harness-side truth so the signature names the failure
     std::vector<CloseCall> got = g_close_calls, exp = m.expect;
@@ -575,15 +651,24 @@ static std::string run(const std::vector<Op> &h, std::string &viol, bool use_cf)
   }
   // canonical state: per variable absent / null / record (named by first appearance); per record the real fd,
   // ref_count and whether a close function is still attached; per descriptor whether it is open in the model
-  std::string s; std::map<const void *, int> name; std::vector<const Fd *> order;
-  for (int i = 0; i < NV; i++) {
+  // (read through fd_key: if the private record goes by other names the key is made from the model's records, get()/isNull() and the last ops)
+  std::string s; std::map<const void *, int> name; std::vector<const Fd *> order; bool have_detail = true;
+  for (int i = 0; i < NV && have_detail; i++) {
     if (!var[i]) { s += "- "; continue; }
-    if (!var[i]->detail_) { s += "n "; continue; }
-    if (!name.count(var[i]->detail_)) { int k = (int)name.size(); name[var[i]->detail_] = k; order.push_back(var[i]); }
-    s += "r" + std::to_string(name[var[i]->detail_]) + " ";
+    const void *d = nullptr; have_detail = fd_detail(*var[i], d, 0); if (!have_detail) break;
+    if (!d) { s += "n "; continue; }
+    if (!name.count(d)) { int k = (int)name.size(); name[d] = k; order.push_back(var[i]); }
+    s += "r" + std::to_string(name[d]) + " ";
   }
   s += "|";
-  for (auto *f : order) { char b[64]; snprintf(b, sizeof b, " fd%d rc%d cf%d", f->detail_->fd, f->detail_->ref_count, f->detail_->close_func ? 1 : 0); s += b; }
+  if (have_detail) for (auto *f : order) fd_record_key(*f, s, 0);
+  else {
+    s = "model:";
+    for (int i = 0; i < NV; i++) { char b[64]; if (!var[i]) { s += " -"; continue; } int r = m.rec[i];
+      if (r < 0) snprintf(b, sizeof b, " n"); else snprintf(b, sizeof b, " r%d(refs%d,%s,ch%d)", r, m.recs[r].refs, m.recs[r].closed ? "closed" : "open", m.recs[r].chan);
+      s += b; snprintf(b, sizeof b, "/get%d", var[i]->get()); s += b; }
+    for (size_t i = h.size() >= 4 ? h.size() - 4 : 0; i < h.size(); i++) { char b[32]; snprintf(b, sizeof b, " /%d:%d:%d", h[i].k, h[i].a, h[i].b); s += b; }
+  }
   s += " |";
   for (int d = 0; d < ND; d++) s += m.open_rec[d] >= 0 ? " open" : issued.count(kDesc[d]) ? " closed" : " fresh";
   s += m.open_rec[REAL] >= 0 ? " file-open" : "";
@@ -598,14 +683,17 @@ static std::string run(const std::vector<Op> &h, std::string &viol, bool use_cf)
 }
 
 static void main_(size_t depth, const char *mode) {
-  bool use_cf = !strncmp(mode, "cf", 2);     // mode = cf|sys[:<variables>:<descriptors>]
-  if (strchr(mode, ':')) sscanf(strchr(mode, ':'), ":%d:%d", &NV, &ND);
+  // mode = cf|sys|cfnull[:fail][:<variables>:<descriptors>]
+  int kind = !strncmp(mode, "cfnull", 6) ? K_CFNULL : !strncmp(mode, "cf", 2) ? K_CF : K_SYS;
+  const char *rest = strchr(mode, ':');
+  if (rest && !strncmp(rest, ":fail", 5)) { g_close_fails = true; rest = strchr(rest + 1, ':'); }
+  if (rest) sscanf(rest, ":%d:%d", &NV, &ND);
   if (NV < 1 || NV > MAXV || ND < 1 || ND > MAXD) { printf("@INFO fd: bad size\n"); return; }
   hx::Explorer<Op> ex; ex.name = std::string("fd/") + mode;
   ex.deadline_s = hx::deadline_from_env(600);
   ex.show = show;
   ex.menu = [&](const std::vector<Op> &h) {
-    Model m(use_cf); for (auto &o : h) m.apply(o);
+    Model m(kind); for (auto &o : h) m.apply(o);
     std::vector<Op> all, out;
     for (int v = 0; v < NV; v++) for (int d = 0; d < ND; d++) all.push_back({OPEN, v, d});
     for (int k : {CPC, MVC, CPA, MVA}) for (int v = 0; v < NV; v++) for (int w = 0; w < NV; w++) if (v != w) all.push_back({k, v, w});
@@ -613,7 +701,7 @@ static void main_(size_t depth, const char *mode) {
     for (int v = 0; v < NV; v++) for (int w = v; w < NV; w++) all.push_back({SWAP, v, w});   // w == v: self swap
     for (auto &o : all) if (m.enabled(o)) out.push_back(o);
     return out; };
-  ex.run = [&](const std::vector<Op> &h, std::string &v) { return run(h, v, use_cf); };
+  ex.run = [&](const std::vector<Op> &h, std::string &v) { return run(h, v, kind); };
   ex.explore(depth);
   emit_outcomes(ex.name);
 }
